@@ -143,6 +143,43 @@ func oracleC15(r *Result) {
 		}
 	}
 	_ = concurrent
+	// the user data in a reply is what the storage holds for the user the request names — not what an earlier or concurrent
+	// request left behind in a record the storage handed out (a value slice filtered, sorted or truncated in place)
+	for _, t := range r.Tasks {
+		if t.Abandoned || t.Reply == nil || t.Panic != "" || t.Reply.Msg == nil || !t.Reply.IsSuccess() || len(t.Reply.Msg.Assertions) != 1 || len(storageFaults(t)) > 0 {
+			continue
+		}
+		op := map[string]string{"callback": "SetUserinfoWithUserID", "attrq": "SetUserinfoWithLoginName"}[t.Msg.Kind]
+		if op == "" {
+			continue
+		}
+		uc := firstCall(t, op)
+		if uc == nil || uc.UserIdx < 0 || uc.UserIdx >= len(w.cfg.Users) {
+			continue
+		}
+		want := map[string]bool{}
+		for _, a := range expectedAttrs(&w.cfg.Users[uc.UserIdx]) {
+			want[a] = true
+		}
+		namesValues := false
+		for _, q := range t.Msg.Requested {
+			if len(q.Values) > 0 {
+				namesValues = true
+			}
+		}
+		if namesValues || len(t.Msg.Tamper) > 0 {
+			continue // what a query that names values itself gets back is C12's business
+		}
+		w.probe("reply_attributes_compared_with_stored_record")
+		for _, got := range attrsOf(t.Reply.Msg.Assertions[0]) {
+			if !want[got] {
+				r.violate("C15 attributes-not-the-stored-record", "C15:isolation:"+t.Msg.Kind+":attribute-differs-from-the-stored-user-record",
+					"a reply is determined solely by its own request and the storage records it names",
+					fmt.Sprintf("attribute %s is not among the attributes stored for that user %v", got, expectedAttrs(&w.cfg.Users[uc.UserIdx])), t.ID)
+				break
+			}
+		}
+	}
 	// same request, same registration ⇒ same outcome: the consumer endpoint persisted for an AuthnRequest is a function of that
 	// request and of the service-provider record it names, not of what other sessions did before
 	type sel struct {
